@@ -10,9 +10,9 @@ from .wire import Num, Obj
 from .gen_values import dec
 
 NAMES = ["a", "b", "c", "d"]
-PATTERNS = ["^a", "b$", "^[a-c]$", "a|b", ".", "^$", "x", "[0-9]", "^é", "^.{2}$", "a+", "^(ab)*$", "\\d", "^[^a]"]
+PATTERNS = ["^a", "b$", "^[a-c]$", "a|b", ".", "^$", "x", "[0-9]", "^é", "^.{2}$", "a+", "^(ab)*$", "\\d", "^[^a]", "^ab$", "^a$", "^abc$", "ab", "^x$"]
 BAD_PATTERNS = ["(", "[a", "*a", "a{2,1}", "\\", "(?<n>a)", "a**"]
-STRS = ["", "a", "b", "ab", "abc", "é", "éa", "日本", "x", "1", "a1", "😀"]
+STRS = ["", "a", "b", "ab", "abc", "é", "éa", "日本", "x", "1", "a1", "😀", "xabcx", "aab", "xa", "abab"]
 NUMS = ["0", "1", "-1", "2", "3", "0.5", "1.5", "2.5", "-0.5", "4", "10", "0.25", "7", "100", "1e2", "2.0", "-3", "-0.0", "0", "0.0"]
 # integral values beyond the int64 range that are exact float64s (type "integer" must still hold)
 HUGE = ["1e19", "-1e19", "18446744073709551616", "9223372036854775808", "-9223372036854775808", "1e15", "2251799813685248.5"]
